@@ -1,4 +1,5 @@
 import ConduitModel.Props.MonSound
+import ConduitModel.Props.C02
 import ConduitModel.Props.C03
 import ConduitModel.Props.C04Stream
 import ConduitModel.Proofs.SrcAckEngine
@@ -183,5 +184,24 @@ theorem C03_v1_composed_crash_safe (c : SrcAck.Cfg) (st st' : SrcAck.St) (cevs :
   have hr' := hr.incarnation cevs hnr hch hrun
   exact ⟨hr', SrcAck.C03_crash_safe c st' hr'⟩
 
-end Conduit.Props
+/-- **C02(v) for the composed system, whole history**: if every incarnation is fed in read order
+(`IncsFed`: `C03_v1_engine_feeds_connector` / `C03_v2_engine_feeds_connector` per incarnation), then at
+the end of the history — and, the history being arbitrary, at every instant of it — the committed
+position never went backwards, every committed position covers handled records only, and nothing the
+plugin was told is past the committed position. -/
+theorem C02_composed_history_positions (c : SrcAck.Cfg) (incs : List (List SrcAck.Ev)) (s' : SrcAck.St)
+    (hf : IncsFed c SrcAck.init incs) (hrun : SrcAck.run c SrcAck.init (joinIncs incs) = some s') :
+    s'.commits.Pairwise (fun x y => x.posN ≤ y.posN) ∧
+    (∀ x ∈ s'.commits, ∀ r : Nat, 1 ≤ r → r ≤ x.posN → r ∈ s'.handled) ∧
+    (∀ a ∈ s'.delivered, ∀ q : Nat, q ∈ a.ps → q ≤ s'.store.posN) := by
+  have hr := ReachO.incarnations incs SrcAck.init s' ⟨[], rfl⟩ hf hrun
+  exact ⟨C02_commit_positions_monotone c s' hr, (C02_stored_position_handled c s' hr).2,
+    C02_delivered_positions_durable c s' hr⟩
 
+/-- … and the next step of a composed history never moves the committed position backwards. -/
+theorem C02_composed_history_store_forward (c : SrcAck.Cfg) (incs : List (List SrcAck.Ev)) (s' s'' : SrcAck.St)
+    (e : SrcAck.Ev) (hf : IncsFed c SrcAck.init incs) (hrun : SrcAck.run c SrcAck.init (joinIncs incs) = some s')
+    (hs : SrcAck.step c s' e = some s'') : s'.store.posN ≤ s''.store.posN :=
+  C02_stored_position_monotone c s' s'' e (ReachO.incarnations incs SrcAck.init s' ⟨[], rfl⟩ hf hrun) hs
+
+end Conduit.Props
